@@ -1,12 +1,18 @@
-//! C13: harness module (stub — not built yet)
-#![allow(dead_code, unused_imports, unused_variables)]
-use crate::rng::Rng;
-use crate::util::{cases, guarded, hval};
+//! C13: panics are contained, attributed, and do not disturb other modules.
+//!
+//! Same script language, scripted modules and observation log as `c09.rs` (see there); the
+//! generator places `panic` actions anywhere in the action lists of message handlers, start
+//! stages, `at_sim_end` and tasks (joined through `try_join` or not), in several modules at once,
+//! under both stereotypes (`catch=0|1`).  `exec` runs every simulation TWICE in the same process:
+//! the second run (`obs2` / `res2` / `glob2` lines) must produce the same trace as the model,
+//! which shows that the simulator's global state (module context, event buffer, simulation lock)
+//! survived the panics of the first run.
+use crate::c09;
 
-pub fn gen(_seed: u64, _count: usize, _thorough: bool) -> String {
-    String::new()
+pub fn gen(seed: u64, count: usize, thorough: bool) -> String {
+    c09::gen_with(seed, count, thorough, 7)
 }
 
-pub fn exec(_input: &str) -> String {
-    String::new()
+pub fn exec(input: &str) -> String {
+    c09::exec_with(input, true)
 }
